@@ -45,6 +45,12 @@ UNREPRESENTABLE = [-1, -70, 1114053, 2 ** 31, 2 ** 32 - 60, 2 ** 32 - 59, 2 ** 3
                    2.7, 0.5, 68.5, 1234.25, -0.5]
 
 
+# with two or more indeterminates the storage keys take exponents up to 2**32-60: products and powers whose
+# exponent sum leaves that range must raise, not wrap around
+HUGE_PAIRS = [[2 ** 31, 2 ** 31], [2 ** 32 - 60, 1], [2 ** 32 - 60, 59], [2 ** 31 + 5, 2 ** 31 - 5], [2 ** 30, 2 ** 30],
+              [2 ** 31 - 100, 2 ** 31 - 100], [3 * 2 ** 30, 2 ** 30 + 7], [2 ** 32 - 61, 2]]
+
+
 def enumerate_cases(tier):
     top = 55000
     if tier == "quick":
@@ -54,6 +60,7 @@ def enumerate_cases(tier):
             yield {"exps": strided[i:i + 200]}
         yield {"exps": BOUNDARY}
         yield {"bad_exps": UNREPRESENTABLE}
+        yield {"huge_pairs": HUGE_PAIRS}
         bset = [0, 1, 9, 10, 58, 59, 60, 68, 69, 70, 127, 128, 137, 196, 197, 198, 255, 256, 300]
         yield {"pairs": [[a, b] for a in bset for b in bset if a <= b]}
     else:
@@ -61,6 +68,7 @@ def enumerate_cases(tier):
             yield {"exps": list(range(lo, min(top, lo + 1000)))}
         yield {"exps": BOUNDARY}
         yield {"bad_exps": UNREPRESENTABLE}
+        yield {"huge_pairs": HUGE_PAIRS}
         for a in range(0, 601):
             yield {"pairs": [[a, b] for b in range(a, 601 - a)]} if a <= 300 else {"pairs": []}
 
@@ -200,6 +208,29 @@ def check_case(case, ctx):
                                              % (cname, e, p.exponents.tolist()), case={"bad_exps": [e]}))
         ctx.add_evals(len(case["bad_exps"]), len(case["bad_exps"]))
         ctx.label("enumerated:unrepresentable")
+        return fails
+    if "huge_pairs" in case:
+        limit = 2 ** 32 - 60
+        for a, b in case["huge_pairs"]:
+            for how in ("multiply", "square"):
+                try:
+                    x = numpoly.polynomial_from_attributes([[a, 0]], [3], ("q0", "q1"))
+                    y = numpoly.polynomial_from_attributes([[b, 1]], [5], ("q0", "q1"))
+                except Exception:
+                    continue  # the operand itself is not accepted
+                want = {(a + b, 1): 15} if how == "multiply" else {(2 * a, 0): 9}
+                try:
+                    z = x * y if how == "multiply" else x ** 2
+                except Exception:
+                    continue  # raising is always acceptable for sums that cannot be stored
+                got = {tuple(e): int(c) for e, c in zip(z.exponents.tolist(), z.coefficients) if c != 0}
+                if got != want:
+                    key = "huge-exponent-sum:%s" % ("wrapped" if max(max(want)) > limit else "value")
+                    if not any(f.bucket == key for f in fails):
+                        fails.append(Failure(key, "%s of q0**%d (x q0**%d*q1): got %s expected %s or an error"
+                                             % (how, a, b, got, want), case={"huge_pairs": [[a, b]]}))
+        ctx.add_evals(2 * len(case["huge_pairs"]), 2 * len(case["huge_pairs"]))
+        ctx.label("enumerated:huge-exponent-sums")
         return fails
     if "pairs" in case:
         for a, b in case["pairs"]:
